@@ -771,6 +771,7 @@ def run(ctx):
         recipe = {"kind": "markup", "config": cname, "markup": markup, "mut_seed": rng.randrange(1 << 30),
                   "nmut": rng.choice([0, 0, 2, 4]), "raw": it % 3 != 0,
                   "void_kids": rng.randrange(1, 1 << 30) if it % 4 == 1 else 0,
+                  "empties": rng.randrange(1, 1 << 30) if it % 3 == 1 else 0,
                   "nset": rng.randrange(1, 1 << 30) if it % 3 == 2 else 0}
         check_document(ctx, recipe, deep_edits=(it % (6 if not ctx.thorough else 4) == 0 and len(markup) < 400),
                        rng=rng, medits=3)
@@ -786,7 +787,8 @@ def run(ctx):
             evs = G.relabel(evs)
         ops, _ = R.gen_history(rng, evs, T.HTML_CFG, rng.randint(2, 12))
         recipe = {"kind": "events", "events": evs, "ops": ops, "mut_seed": rng.randrange(1 << 30),
-                  "nmut": rng.choice([0, 2, 3]), "raw": True, "nset": rng.randrange(1, 1 << 30) if it % 2 else 0}
+                  "nmut": rng.choice([0, 2, 3]), "raw": True, "nset": rng.randrange(1, 1 << 30) if it % 2 else 0,
+                  "empties": rng.randrange(1, 1 << 30) if it % 4 == 2 else 0}
         check_document(ctx, recipe, deep_edits=(it % 5 == 0), rng=rng, medits=2)
         if it < 1:
             ctx.sample({"edited_document": recipe})
